@@ -160,20 +160,21 @@ Proof. exact read_vcpu_base_ok. Qed.
 
 (* Software version, legacy encoding (arg2 >> 16 = 100 * major + minor) and semantic-version encoding
    (arg2 >> 16 = 0xffff, "major.minor.patch" and labels after the name's NUL): position, cpu numbers, buffer
-   size, build date, name, the three numbers and the labels come back as sent. *)
+   size, build date, name, the three numbers and the labels come back as sent, whatever the number [pad] of
+   NUL bytes after the last string (none, the usual one, or padding). *)
 Theorem C14_sver_legacy_roundtrip :
-  forall x y pcpu vcpu major minor buf date name,
+  forall x y pcpu vcpu major minor buf date name pad,
     sver_header_valid x y pcpu vcpu buf -> 0 <= major -> 0 <= minor < 100 -> 100 * major + minor < 65535 ->
     ascii_text name ->
-    decode_sver (encode_sver_legacy x y pcpu vcpu major minor buf date name) =
+    decode_sver (encode_sver_legacy x y pcpu vcpu major minor buf date name pad) =
     Ok (mkCO (x, y) pcpu vcpu (major, minor, 0) buf date name []).
 Proof. exact sver_legacy_roundtrip. Qed.
 
 Theorem C14_sver_semver_roundtrip :
-  forall x y pcpu vcpu buf date name d1 d2 d3 labels,
+  forall x y pcpu vcpu buf date name d1 d2 d3 labels pad,
     sver_header_valid x y pcpu vcpu buf -> ascii_text name -> digits d1 -> digits d2 -> digits d3 ->
     labels_ok labels ->
-    decode_sver (encode_sver_semver x y pcpu vcpu buf date name d1 d2 d3 labels) =
+    decode_sver (encode_sver_semver x y pcpu vcpu buf date name d1 d2 d3 labels pad) =
     Ok (mkCO (x, y) pcpu vcpu (dec_value d1, dec_value d2, dec_value d3) buf date name labels).
 Proof. exact sver_semver_roundtrip. Qed.
 
@@ -182,7 +183,7 @@ Example C14_sver_semver_satisfiable :
   sver_header_valid 3 4 17 0 256 /\ ascii_text (chars "SC&MP/SpiNNaker") /\ digits (chars "2") /\ digits (chars "10") /\
   digits (chars "0") /\ labels_ok (chars "-dev") /\
   option_map flat_core_info (okopt (decode_sver (encode_sver_semver 3 4 17 0 256 1459253424 (chars "SC&MP/SpiNNaker")
-                                                                    (chars "2") (chars "10") (chars "0") (chars "-dev"))))
+                                                                    (chars "2") (chars "10") (chars "0") (chars "-dev") 0)))
   = Some [[3; 4; 17; 0; 2; 10; 0; 256; 1459253424]; chars "SC&MP/SpiNNaker"; chars "-dev"].
 Proof. exact ex_sver_semver. Qed.
 
